@@ -312,6 +312,29 @@ impl embedded_hal::spi::SpiDevice<u8> for PlainSpi {
     }
 }
 
+/// the same device is also a bus (one instance serving two generic traits with equally named methods)
+impl embedded_hal::spi::SpiBus<u8> for PlainSpi {
+    fn read(&mut self, words: &mut [u8]) -> Result<(), PlainErr> {
+        words.iter_mut().for_each(|w| *w = 0xB0);
+        if self.0.on_unit(format!("bus.read {}", words.len())) { Ok(()) } else { Err(PlainErr) }
+    }
+    fn write(&mut self, words: &[u8]) -> Result<(), PlainErr> {
+        if self.0.on_unit(format!("bus.write {words:?}")) { Ok(()) } else { Err(PlainErr) }
+    }
+    fn transfer(&mut self, read: &mut [u8], write: &[u8]) -> Result<(), PlainErr> {
+        read.iter_mut().for_each(|w| *w = 0xB1);
+        if self.0.on_unit(format!("bus.transfer {} {write:?}", read.len())) { Ok(()) } else { Err(PlainErr) }
+    }
+    fn transfer_in_place(&mut self, words: &mut [u8]) -> Result<(), PlainErr> {
+        let d = format!("bus.transfer_in_place {words:?}");
+        words.iter_mut().for_each(|w| *w = w.wrapping_add(7));
+        if self.0.on_unit(d) { Ok(()) } else { Err(PlainErr) }
+    }
+    fn flush(&mut self) -> Result<(), PlainErr> {
+        if self.0.on_unit("bus.flush".into()) { Ok(()) } else { Err(PlainErr) }
+    }
+}
+
 // tokio / futures-io
 struct PlainAsync(Script);
 fn poll_ev<T>(s: &mut Script, cx: &mut Context<'_>, ready: impl FnOnce(&mut Script) -> io::Result<T>) -> Poll<io::Result<T>> {
@@ -459,6 +482,28 @@ fn mock_clauses(s: &Shared, group: u8) -> unimock::verif::DynClause {
                     if sh(&a).on_unit(format!("spi.transaction {d}")) { Ok(()) } else { Err(Unimock::new(())) }
                 },
             ))));
+            // the same instance is a bus as well
+            use ehm::spi::SpiBusMock;
+            let (b1, b2, b3, b4, b5) = (c(s), c(s), c(s), c(s), c(s));
+            v.push(D::new(SpiBusMock::read.with_types::<u8>().each_call(matching!(_)).answers_arc(Arc::new(move |_u: &mut Unimock, words: &mut [u8]| {
+                words.iter_mut().for_each(|w| *w = 0xB0);
+                if sh(&b1).on_unit(format!("bus.read {}", words.len())) { Ok(()) } else { Err(Unimock::new(())) }
+            }))));
+            v.push(D::new(SpiBusMock::write.with_types::<u8>().each_call(matching!(_)).answers_arc(Arc::new(move |_u: &mut Unimock, words: &[u8]| {
+                if sh(&b2).on_unit(format!("bus.write {words:?}")) { Ok(()) } else { Err(Unimock::new(())) }
+            }))));
+            v.push(D::new(SpiBusMock::transfer.with_types::<u8>().each_call(matching!(_, _)).answers_arc(Arc::new(move |_u: &mut Unimock, read: &mut [u8], write: &[u8]| {
+                read.iter_mut().for_each(|w| *w = 0xB1);
+                if sh(&b3).on_unit(format!("bus.transfer {} {write:?}", read.len())) { Ok(()) } else { Err(Unimock::new(())) }
+            }))));
+            v.push(D::new(SpiBusMock::transfer_in_place.with_types::<u8>().each_call(matching!(_)).answers_arc(Arc::new(move |_u: &mut Unimock, words: &mut [u8]| {
+                let d = format!("bus.transfer_in_place {words:?}");
+                words.iter_mut().for_each(|w| *w = w.wrapping_add(7));
+                if sh(&b4).on_unit(d) { Ok(()) } else { Err(Unimock::new(())) }
+            }))));
+            v.push(D::new(SpiBusMock::flush.with_types::<u8>().each_call(matching!()).answers_arc(Arc::new(move |_u: &mut Unimock| {
+                if sh(&b5).on_unit("bus.flush".into()) { Ok(()) } else { Err(Unimock::new(())) }
+            }))));
         }
         11 => {
             use unimock::mock::tokio_1::io::{AsyncReadMock, AsyncWriteMock};
@@ -514,7 +559,7 @@ fn okerr<T: std::fmt::Debug, E>(r: &Result<T, E>) -> String {
 pub const GROUPS: &[&str] = &[
     "std::io::Write", "std::io::Read", "std::io::BufRead", "std::io::Seek", "core::hash::Hasher", "core::fmt::Display",
     "embedded_hal::delay::DelayNs", "embedded_hal::digital::(Stateful)OutputPin", "embedded_hal::pwm::SetDutyCycle",
-    "embedded_hal::i2c::I2c", "embedded_hal::spi::SpiDevice", "tokio::io::AsyncRead/AsyncWrite", "futures_io::AsyncRead/AsyncWrite",
+    "embedded_hal::i2c::I2c", "embedded_hal::spi::SpiDevice+SpiBus", "tokio::io::AsyncRead/AsyncWrite", "futures_io::AsyncRead/AsyncWrite",
 ];
 
 fn gen_script(rng: &mut Rng, faults: bool, asynchronous: bool) -> Vec<Ev> {
@@ -751,11 +796,28 @@ fn drive(seed: u64, group: u8, faults: bool) -> (String, Vec<String>, Vec<String
             });
         }
         10 => {
-            use embedded_hal::spi::SpiDevice;
-            let k = rng.usize(4);
-            what = format!("SpiDevice::{}", ["read", "write", "transfer", "transfer_in_place"][k]);
+            use embedded_hal::spi::{SpiBus, SpiDevice};
+            let k = rng.usize(9);
+            what = format!("Spi{}", ["Device::read", "Device::write", "Device::transfer", "Device::transfer_in_place", "Bus::read", "Bus::write", "Bus::transfer", "Bus::transfer_in_place", "Bus::flush"][k]);
             let n = rng.range(0, 6);
             both!(PlainSpi(script.clone()), |p| match k {
+                4 => {
+                    let mut buf = vec![0u8; n];
+                    let r = SpiBus::read(p, &mut buf);
+                    format!("{} {:?}", okerr(&r), buf)
+                }
+                5 => okerr(&SpiBus::write(p, &payload)),
+                6 => {
+                    let mut buf = vec![0u8; n];
+                    let r = SpiBus::transfer(p, &mut buf, &payload);
+                    format!("{} {:?}", okerr(&r), buf)
+                }
+                7 => {
+                    let mut buf = payload.clone();
+                    let r = SpiBus::transfer_in_place(p, &mut buf);
+                    format!("{} {:?}", okerr(&r), buf)
+                }
+                8 => okerr(&SpiBus::<u8>::flush(p)),
                 0 => {
                     let mut buf = vec![0u8; n];
                     let r = SpiDevice::read(p, &mut buf);
